@@ -34,6 +34,7 @@ CONSTANTS
   GasLimits = {%(gaslimits)s}
   DataLens = {%(datalens)s}
   DNonces <- MCDN
+  LeanSenders = {%(lean)s}
 %(rest)s
 CHECK_DEADLOCK FALSE
 """
@@ -79,7 +80,8 @@ def run(ctx):
                "trusted: TLC, the projection (GetExistingAccount / GetAccumulatedFees) in harness/cmd/vh-movebalance")
     full = dict(values="0, 1, 4, 41", prices="0, 1, 2", gaslimits="1, 2, 3, 5, 7, 8", datalens="0, 1")
     # ---- R1: exhaustive to a bounded number of transactions (BFS + VIEW: hist is the shortest history)
-    trim = dict(gaslimits="1, 2, 3, 8", values="0, 4, 41") if q else {}
+    trim = dict(gaslimits="1, 2, 3, 8", values="0, 4, 41", lean='"c"') if q else {}
+    full["lean"] = ""
     open(os.path.join(sd, "r1.cfg"), "w").write(CFG % dict(
         full, spec="GenSpec", log="LogAppend", depth=4, scen="quick" if q else "thorough", rest=PROPS_R1, defects="", **trim))
     dev = bool(os.environ.get("VERIF_DEV_SKIP_R1"))     # mutation-testing aid only: skips the code-independent R1 runs
@@ -113,7 +115,7 @@ def run(ctx):
     open(os.path.join(sd, "sim.cfg"), "w").write(CFG % dict(
         full, spec="GenSpec", log="LogAppend", depth=14, scen="thorough", rest="ACTION_CONSTRAINT EmitFull", defects=DEFECT))
     beh2 = ctx.path("sim.ndjson")
-    ctx.tlc(sd, "MC_MoveBalance", "sim.cfg", simulate=40 if q else 400, depth=14, timeout=900, behaviours_out=beh2,
+    ctx.tlc(sd, "MC_MoveBalance", "sim.cfg", simulate=12 if q else 400, depth=14, timeout=900, behaviours_out=beh2,
             count=False)
     r2 = ctx.vh(exe, ["replay", beh2], timeout=1200, count_samples=False)
     ctx.cov(traces_validated_against_impl=int(r2.stats.get("behaviours", 0)), evaluations=int(r2.stats.get("steps", 0)))
@@ -122,7 +124,7 @@ def run(ctx):
     open(os.path.join(sd, "obs.cfg"), "w").write(TRACE_CFG % dict(strict="FALSE", invs=CORE))
     open(os.path.join(sd, "known.cfg"), "w").write(TRACE_CFG % dict(strict="FALSE", invs="InvK_C23_NoMint"))
     tr = os.path.join(sd, "trace.ndjson")
-    nt, ln = (25, 120) if q else (250, 200)
+    nt, ln = (20, 100) if q else (250, 200)
     r3 = ctx.vh(exe, ["record", ctx.seed, nt, ln, tr])
     st, line = vlib.validate_trace(ctx, sd, "Trace_MoveBalance", "strict.cfg", tr, int(r3.stats.get("events", 0)),
                                    "C23/trace", divergence_is_violation=True, what="txProcessor trace")
